@@ -81,7 +81,37 @@ def detect(name, tier="quick"):
     return rc, viol
 
 
+def shadow(patch, props, tier="quick", keep=False):
+    """Run checks against a scratch worktree of /repo with <patch> applied; /repo and /verif/evidence stay untouched."""
+    name = os.path.basename(os.path.dirname(os.path.abspath(patch))) if os.path.basename(patch) == "patch.diff" else os.path.basename(patch)
+    wt = "/var/tmp/verif-scratch/shadow_%s_%d" % (name, os.getpid())
+    os.makedirs("/var/tmp/verif-scratch", exist_ok=True)
+    rc, out = sh("git -C /repo worktree add -q --detach %s HEAD" % wt)
+    assert rc == 0, out
+    results = {}
+    try:
+        if patch != "-":
+            rc, out = sh("git -C %s apply %s" % (wt, os.path.abspath(patch)))
+            assert rc == 0, out
+        if props == "all":
+            props = ",".join(c["property_id"] for c in json.load(open(os.path.join(HOME, "MANIFEST.json")))["checks"])
+        for p in props.split(","):
+            t = time.time()
+            rc, out = sh("VERIF_REPO=%s timeout 7000 bin/check %s %s" % (wt, p, tier), cwd=HOME, timeout=7100)
+            viol = [l for l in out.splitlines() if l.startswith("VIOLATION") or l.strip().startswith("signature=") or l.startswith("INFRA")]
+            results[p] = {"exit": rc, "wall_s": round(time.time() - t, 1), "lines": viol[:6]}
+            print(name, p, tier, "exit", rc, "%.0fs" % (time.time() - t), " | ".join(v.strip()[:160] for v in viol[:3]), flush=True)
+    finally:
+        if not keep:
+            sh("git -C /repo worktree remove --force %s" % wt)
+            shutil.rmtree(wt + ".out", ignore_errors=True)
+    return results
+
+
 if __name__ == "__main__":
+    if sys.argv[1] == "shadow":
+        shadow(*sys.argv[2:])
+        sys.exit(0)
     if sys.argv[1] == "confirm":
         r = confirm(*sys.argv[2:])
         print(json.dumps({k: v for k, v in r.items() if not k.endswith("_tail")}, indent=1))
